@@ -423,7 +423,7 @@ def instrument(S, cfg, CR, goals):
     return M
 
 
-def run_sessions(ctx, prop, n_sessions, gen_opts, cfg_opts=None, extra_monitor=None, n_directed=46, rename=False, scale=False):
+def run_sessions(ctx, prop, n_sessions, gen_opts, cfg_opts=None, extra_monitor=None, n_directed=48, rename=False, scale=False):
     """Generate sessions, follow them with the model, collect this property's monitor hits."""
     CG, CR, nsgenv = _imports()
     rng0 = random.Random(ctx.seed * 104729 + int(prop[1:]))
@@ -436,7 +436,7 @@ def run_sessions(ctx, prop, n_sessions, gen_opts, cfg_opts=None, extra_monitor=N
     stwin = {"sessions": 0, "connections": 0, "differences": 0}
     for i in range(n_sessions):
         rng = random.Random(rng0.randrange(1 << 40))
-        if i < n_directed and i % 23 == 21 and prop not in ("C16", "C17") and ctx.tier != "thorough":
+        if i < n_directed and i % 24 == 21 and prop not in ("C16", "C17") and ctx.tier != "thorough":
             continue        # the 100-action episode (17 s inside Coq): every run of C16 and C17, thorough runs of the others
         if i < n_directed:
             # directed scenarios first: the monitor is attached by wrapping Session creation
